@@ -435,10 +435,14 @@ func c43Exec(c *Case) {
 		}
 		if e == nil {
 			transport := ""
-			if f[0] == "e2e" && len(f) == 7 && (f[1] == "pipe" || f[1] == "http") {
+			opts := "-"
+			if f[0] == "e2e" && (len(f) == 7 || len(f) == 8) && (f[1] == "pipe" || f[1] == "http") {
 				// end-to-end family: the same hook, installed on a server that really serves
 				transport = f[1]
-				f = append([]string{"cfg"}, f[2:]...)
+				if len(f) == 8 {
+					opts = f[7]
+				}
+				f = append([]string{"cfg"}, f[2:7]...)
 			}
 			if f[0] != "cfg" || len(f) != 6 {
 				c.Out(l, "err:no-cfg")
@@ -485,7 +489,7 @@ func c43Exec(c *Case) {
 				return
 			}
 			if transport != "" {
-				e.setupE2E()
+				e.setupE2E(opts)
 				c.Stat("e2e-" + transport)
 			}
 			c.Out(fmt.Sprintf("cfg %s %s %s %s", f[1], f[2], f[3], c43B(e.prop)), "ok")
